@@ -85,6 +85,12 @@ def shadow(modname, **shims):
             src = real(modname, name)
             g[name] = _refunc(src, g)
         elif isinstance(val, type) and val.__module__ == modname:
+            explicit_super = any(
+                isinstance(v, types.FunctionType) and
+                "super" in v.__code__.co_names and
+                name in v.__code__.co_names
+                for v in val.__dict__.values())
+            cell = types.CellType()
             ns = {}
             for k, v in val.__dict__.items():
                 if isinstance(v, (types.FunctionType, staticmethod,
@@ -93,30 +99,46 @@ def shadow(modname, **shims):
                         rv = real(modname, name + "." + k)
                     except Exception:
                         rv = v
-                    ns[k] = _rewrap(rv, g)
-            g[name] = type(name, (val,), ns)
+                    ns[k] = _rewrap(rv, g, cell if explicit_super else None)
+                elif explicit_super and k not in ("__dict__", "__weakref__"):
+                    ns[k] = v
+            if explicit_super:
+                # `super(Name, self)` inside the methods must skip to the
+                # REAL bases: rebuild the class with the same bases
+                bases = tuple(g.get(b.__name__, b) if b.__module__ == modname
+                              else b for b in val.__bases__)
+                newcls = type(val)(name, bases, ns)
+            else:
+                newcls = type(name, (val,), ns)
+            cell.cell_contents = newcls
+            g[name] = newcls
     return g
 
 
-def _refunc(f, g):
+def _refunc(f, g, cell=None):
+    closure = f.__closure__
+    if cell is not None and closure and \
+            "__class__" in f.__code__.co_freevars:
+        closure = tuple(cell if n == "__class__" else c for n, c in
+                        zip(f.__code__.co_freevars, closure))
     nf = types.FunctionType(f.__code__, g, f.__name__, f.__defaults__,
-                            f.__closure__)
+                            closure)
     nf.__kwdefaults__ = f.__kwdefaults__
     nf.__qualname__ = f.__qualname__
     return nf
 
 
-def _rewrap(v, g):
+def _rewrap(v, g, cell=None):
     if isinstance(v, types.FunctionType):
-        return _refunc(v, g)
+        return _refunc(v, g, cell)
     if isinstance(v, staticmethod):
-        return staticmethod(_refunc(v.__func__, g))
+        return staticmethod(_refunc(v.__func__, g, cell))
     if isinstance(v, classmethod):
-        return classmethod(_refunc(v.__func__, g))
+        return classmethod(_refunc(v.__func__, g, cell))
     if isinstance(v, property):
-        return property(_refunc(v.fget, g) if v.fget else None,
-                        _refunc(v.fset, g) if v.fset else None,
-                        _refunc(v.fdel, g) if v.fdel else None)
+        return property(_refunc(v.fget, g, cell) if v.fget else None,
+                        _refunc(v.fset, g, cell) if v.fset else None,
+                        _refunc(v.fdel, g, cell) if v.fdel else None)
     return v
 
 
